@@ -2,7 +2,7 @@
     bool, option, list, prod, unit, sumbool map to OCaml's own types; [nat] stays Peano; there is
     no [Extract Constant]. *)
 From Coq Require Import Extraction ExtrOcamlBasic ExtrOcamlString.
-From TP Require QModel Mon_C20 PObs PMon CModel.
+From TP Require QModel Mon_C20 PObs PMon CModel SModel.
 Extraction Language OCaml.
 Separate Extraction
   QModel.init QModel.observe1 QModel.step QModel.enabled
@@ -10,4 +10,5 @@ Separate Extraction
   PObs.observe1 PObs.observe PModel.init PModel.step PModel.enabled
   PMon.mon_run PMon.trk_init PMon.ok_prop
   CModel.build_commands CModel.handshake_ok CModel.wf_surface CModel.render CModel.interpret
-  CModel.find_command CModel.sess_run.
+  CModel.find_command CModel.sess_run
+  SModel.init SModel.step.
